@@ -104,6 +104,11 @@ func backendProp(b backendSpec, meaning string) propFunc {
 		r.floor("irfield.read."+b.Name, 90)
 		c.runIRFieldReadSel(r, "irfield.decl", b.Name, irFieldReadExceptions, irDeclStructs)
 		r.floor("irfield.decl."+b.Name, 25)
+		if b.Name == "glsl" || b.Name == "hlsl" || b.Name == "msl" {
+			r.Clauses = append(r.Clauses, "textures as arguments (E65): a function that answers which image type an expression has by looking for the global variable behind it also answers for a function argument (an arm for ExprFunctionArgument, the expression's resolved type, or a callee that does)")
+			c.runImageTypeViaGlobal(r, "imagetype.viaglobal", inPkgs(b.Name))
+			r.floor("imagetype.viaglobal", 1)
+		}
 		r.Clauses = append(r.Clauses, shallowWalkerClause)
 		c.runShallowWalker(r, "walker.shallow", inPkgs(b.Name), shallowWalkerExceptions)
 		r.floor("walker.shallow", 2)
